@@ -107,7 +107,13 @@ class World:
 
 
 def real_state(w):
-    """Canonical form of the real metaclass / class state (every dict-valued attribute)."""
+    """
+    Canonical form of the real metaclass / class state: EVERY non-dunder, non-callable attribute of
+    every metaclass and class of the pool (not only the known instance map), so that state a
+    refactoring adds (a last-lookup shortcut, a counter, a second table) separates states too.
+    Instances are named by first visit in a deterministic scan order.
+    """
+    import types
     labels = {}
 
     def lab(o):
@@ -118,6 +124,24 @@ def real_state(w):
             labels[id(o)] = (len(labels), type(o).__name__)
         return labels[id(o)]
 
+    def cv(x):
+        if isinstance(x, (int, float, str, bytes, bool, type(None))):
+            return (type(x).__name__, x)
+        if isinstance(x, type):
+            return ("cls", x.__name__)
+        if isinstance(x, dict):
+            # keys first (their form never involves instance labels), then the values in key order, so
+            # that instance labels do not depend on insertion order
+            keyed = sorted(((repr(cv(k)), v) for k, v in x.items()), key=lambda kv: kv[0])
+            return ("dict",) + tuple((k, cv(v)) for k, v in keyed)
+        if isinstance(x, (list, tuple)):
+            return (type(x).__name__,) + tuple(cv(e) for e in x)
+        if isinstance(x, (set, frozenset)):
+            return ("set",) + tuple(sorted(repr(cv(e)) for e in x))
+        if any(isinstance(x, c) for c in w.cls):
+            return ("inst",) + lab(x)
+        return ("other", type(x).__name__)
+
     out = []
     metas = []
     for c in w.cls:
@@ -125,11 +149,14 @@ def real_state(w):
             metas.append(type(c))
     for holder in metas + w.cls:
         for name in sorted(vars(holder)):
+            if name.startswith("__") and name.endswith("__"):
+                continue
             val = vars(holder)[name]
-            if isinstance(val, dict) and not name.startswith("__"):
-                items = sorted(((repr(k), v) for k, v in val.items()), key=lambda kv: kv[0])
-                out.append((name, tuple((k, lab(v) if not isinstance(v, (int, str, type(None))) else v)
-                                        for k, v in items)))
+            if isinstance(val, (types.FunctionType, types.MethodType, classmethod, staticmethod, property)):
+                continue
+            if callable(val) and not isinstance(val, type):
+                continue
+            out.append((name, cv(val)))
     return tuple(out)
 
 
@@ -314,7 +341,7 @@ def run(tier, seed, log):
             rep.add(fp, rec, n)
         tot["states"] += res.states
         tot["transitions"] += res.transitions
-        tot["validated"] += res.validated + res.transitions
+        tot["validated"] += res.validated
         tot["nontrivial"] += res.nontrivial
         tot["outcomes"] += len(res.outcomes)
         exhaustive = exhaustive and res.exhaustive
